@@ -295,6 +295,12 @@ func Run(c *core.Check) {
 		}
 	}
 	grow("", c.Pick(3, 4))
+	// long digit strings: every length around the sizes of the scratch buffers a number may be copied into (16..28 digits)
+	const long = "1234567891234567891234567891"
+	for l := 14; l <= len(long); l++ {
+		fracs = append(fracs, "."+long[:l])
+		ints = append(ints, long[:l])
+	}
 	exps := []string{"", "e0", "e1", "e2", "e3", "e4", "e5", "e+4", "e-1", "e-2", "e-3", "e-5", "E2", "e10"}
 	p := core.Product{len(ints), len(fracs), len(exps), 2}
 	c.Family("number-grammar").Bound = fmt.Sprintf("%d integer parts x %d fractions x %d exponents x sign, in an array and as an object value, KeepNumbers off/on", len(ints), len(fracs), len(exps))
